@@ -493,6 +493,14 @@ func EncryptFragment(f *Fragment, key, iv []byte, ipd *InitProtectData) error {
 		if err != nil {
 			return fmt.Errorf("get protect ranges: %w", err)
 		}
+		// The auxiliary information size of a sample (IV + 2 + 6 per subsample) is an 8-bit field in saiz
+		auxInfoSize := 2 + 6*len(subsamplePatterns)
+		if ipd.Scheme == "cenc" {
+			auxInfoSize += len(iv)
+		}
+		if len(subsamplePatterns) > 0 && auxInfoSize > 255 {
+			return fmt.Errorf("sample with %d subsamples: auxiliary information size %d does not fit in saiz", len(subsamplePatterns), auxInfoSize)
+		}
 		switch ipd.Scheme {
 		case "cenc":
 			err = CryptSampleCenc(sample, key, iv, subsamplePatterns)
